@@ -697,9 +697,11 @@ def gen_mixed(env, rng, n):
         peer_ids = [t.vid(gen_value(rng)) if rng.random() < 0.93 else t.vid(None)
                     for _ in range(rng.randrange(0, 8))]
         frames = [t.frame(i) for i in peer_ids]
+        corrupted = False
         if frames and rng.random() < 0.3:
             j = rng.randrange(len(frames))
             frames[j] = corrupt_frame(rng, t, frames[j], rng.choice(CORRUPTIONS))
+            corrupted = True
         stream = b"".join(frames)
         for i in peer_ids:
             add_msg(env, c, i)
@@ -737,7 +739,8 @@ def gen_mixed(env, rng, n):
                 c["evs"].append({"k": "disc"})
             else:
                 c["evs"].append({"k": "conn", "ok": rng.random() < 0.8, "now": now})
-        c["expect"] = {"mon": "mixed", "peer": peer_ids}
+        c["expect"] = {"mon": "mixed", "peer": peer_ids, "clean": not corrupted and
+                       not any(e["k"] == "conn" for e in c["evs"])}
         yield c
 
 
@@ -905,6 +908,12 @@ def monitor(env, case, real, rng=None):
         d = real["delivered"]
         if any(env.table.vals[i] is None for i in d):
             v.append({"signature": "tcp_connection.read:none-delivered", "what": "None was delivered as a message"})
+        if ex.get("clean"):
+            # one connection, an uncorrupted peer stream, any faults: what was delivered is a prefix of what the peer sent
+            want = [i for i in peer if env.table.vals[i] is not None]
+            if d != want[:len(d)]:
+                v.append({"signature": "tcp_connection.read:delivered-differs:not-a-prefix",
+                          "what": "delivered %r is not a prefix of the peer's messages %r" % (d[:8], want[:8])})
     return v
 
 
